@@ -205,3 +205,97 @@ class HVOs(_DictGetter):
 class HVProcesses(_DictGetter):
     qualname = "nasim.envs.host_vector.HostVector.processes"
     fn = staticmethod(proc_dict)
+
+
+# ---------------------------------------------------------------------------- the three dict getters, proved
+# (the call-site abstraction above says "the dict is a function of the vector"; here the real loop is verified to
+#  build exactly {name k -> vector[start + k]} for the scenario's names, which is such a function)
+
+from pyvc.contract import LoopContract, loop_contract
+from pyvc.values import SDict, PyDict, NameK
+
+I_ = z3.IntSort()
+
+
+class _GetterLoop(LoopContract):
+    tags = ("C12", "C13", "C08")
+    local = None
+    start = None
+
+    def snapshot(self, I, fr, seq):
+        return {"vec": fr.locals["self"].fields["vector"].content()}
+
+    def havoc(self, I, fr, entry, seq):
+        fr.locals[self.local] = SDict(1, "real", I.ctx.fresh(self.local + "_dom", z3.ArraySort(I_, z3.BoolSort())),
+                                      I.ctx.fresh(self.local + "_val", z3.ArraySort(I_, z3.RealSort())),
+                                      fresh=True, label=self.local)
+
+    def inv(self, I, fr, entry, seq, k):
+        sig = I.ext_state["sig"]
+        L = sig.layout()
+        d = fr.locals[self.local]
+        start = getattr(L, self.start)
+        if isinstance(d, PyDict):
+            return [("prefix", z3.BoolVal(not d.d) if z3.is_int_value(z3.simplify(k)) and z3.simplify(k).as_long() == 0
+                     else z3.BoolVal(False))]
+        j = sig.qvar("gj")
+        return [("prefix", z3.ForAll([j], z3.And(
+            z3.Select(d.dom, j) == z3.And(0 <= j, j < k),
+            z3.Implies(z3.And(0 <= j, j < k), z3.Select(d.val, j) == z3.Select(entry["vec"], start + j))))),
+            ("vector-untouched", fr.locals["self"].fields["vector"].content() == entry["vec"])]
+
+
+class _GetterProved(Contract):
+    tags = {"": ("C12", "C13", "C08")}
+    start = None
+    count = None
+    bounded = False
+
+    def setup(self, I, variant):
+        sig = V.Sigma(concrete=I.ext_state.get("concrete"))
+        for ax in sig.wfs():
+            I.ctx.assume(ax)
+        I.ext_state["sig"] = sig
+        L = sig.install_layout(I)
+        vec = z3.Const("gvec", A1)
+        cell = NpCell(vec, (L.W,), fresh=False, label="self.vector")
+        selfobj = Obj(I.repo.cls("nasim.envs.host_vector.HostVector"), {"vector": NpArr(cell)}, fresh=False, label="self")
+        S = Scope(sig=sig)
+        S.a = {"self": selfobj}
+        S.old["vec"] = vec
+        S.old["cell"] = cell
+        S.call_args = ([selfobj], {})
+        return S
+
+    def ensures(self, I, S):
+        if getattr(S, "callsite", False):
+            return []
+        sig = S.sig
+        L = sig.layout()
+        d = S.result
+        n = ival(getattr(sig, self.count))
+        start = getattr(L, self.start)
+        if not isinstance(d, SDict):
+            return [("dict-of-vector-cells", z3.BoolVal(False))]
+        j = sig.qvar("gj")
+        return [("dict-of-vector-cells", z3.ForAll([j], z3.And(
+            z3.Select(d.dom, j) == z3.And(0 <= j, j < n),
+            z3.Implies(z3.And(0 <= j, j < n), z3.Select(d.val, j) == z3.Select(S.old["vec"], start + j)))))]
+
+    def frame(self, I, S):
+        return [("vector-untouched", S.old["cell"].content == S.old["vec"])]
+
+
+def _mk_getter(name, fn, local, start, count, ordinal=0):
+    q = "nasim.envs.host_vector.HostVector." + name
+    loop = type("Loop_" + name, (_GetterLoop,), {"qualname": q, "ordinal": ordinal, "local": local, "start": start})
+    loop_contract(loop)
+    model = {"services": HVServices, "os": HVOs, "processes": HVProcesses}[name]
+    proved = type("Proved_" + name, (_GetterProved, model), {"qualname": q, "verify": True, "start": start, "count": count,
+                                                               "fn": staticmethod(fn)})
+    contract(proved)
+
+
+_mk_getter("services", svc_dict, "services", "srv0", "nSrv")
+_mk_getter("os", os_dict, "os", "os0", "nOS")
+_mk_getter("processes", proc_dict, "processes", "proc0", "nProc")
